@@ -8,6 +8,9 @@ import PharmpyModel.C05.Collect
   request   (collect ((key coeff) ...))      key = atom, coeff = expression
   answer    ((key coeffsum) ...)             the monomials regrouped by key (canonical_ode_rhs)
 
+  request   (substexpr ((atom e') ...) e)    simultaneous substitution of atoms (symbols, applied functions)
+  answer    e[atom := e', ...]
+
   request   (trace (op ...))
   answer    ((status obs) ...)   one entry for the empty builder, then one per operation;
             status = ok | (err ValueError) | (err NetworkXError) | (err unsupported);
@@ -147,6 +150,12 @@ def monomial? : Sexp → Option (String × Expr)
   | _ => none
 
 def handle : Sexp → Sexp
+  | .list [.atom "substexpr", .list tbl, e] =>
+    match tbl.mapM (fun p => match p with
+        | .list [.atom a, t] => (Expr.ofSexp? t).map (fun t => (a, t))
+        | _ => none), Expr.ofSexp? e with
+    | some tbl, some e => (Expr.subst (fun x => alGet? tbl x) e).toSexp
+    | _, _ => bad
   | .list [.atom "collect", .list ms] =>
     match ms.mapM monomial? with
     | some ms => .list ((collectBy ms).map (fun g => .list [.atom g.1, g.2.toSexp]))
